@@ -574,6 +574,9 @@ fn run_bundle<P: Payload + Clone>(ctx: &Ctx, b: &Bundle, prefix: &Option<Vec<Cal
         compare_observers(st, ctx, b, prefix, &sim, prog);
         if ctx.opts.lookups {
             // digest of the observations (C17)
+            if let Ok(lk) = std::panic::catch_unwind(std::panic::AssertUnwindSafe(|| sim.lookups())) {
+                fnv(&mut digest, serde_json::to_string(&lk).unwrap().as_bytes());
+            }
             for slot in 1..=b.st.count {
                 if b.st.live.contains(&slot) {
                     fnv(&mut digest, serde_json::to_string(&sim.observe(slot, b.st.count + 1)).unwrap().as_bytes());
